@@ -196,6 +196,7 @@ def compare(ast, sm, schema, resources, main=MAIN, mode="mem"):
     finally:
         if root:
             shutil.rmtree(root, ignore_errors=True)
+    _SCHEMA["schema"] = schema
     return _judge(ZConfig, ref, got, out)
 
 
@@ -218,6 +219,9 @@ def harmless_override(sm, resources):
 def _unq(u):
     from urllib.parse import unquote
     return unquote(u) if isinstance(u, str) else u
+
+
+_SCHEMA = {}
 
 
 def _judge(ZConfig, ref, got, out):
@@ -246,6 +250,18 @@ def _judge(ZConfig, ref, got, out):
                 out.append(("conversion-error-wrong-value", "value=%r expected %r" % (e.value, ref.value)))
             if not isinstance(getattr(e, "exception", None), ValueError):
                 out.append(("conversion-error-without-original-exception", repr(getattr(e, "exception", None))))
+            elif ref.dt and _SCHEMA.get("schema") is not None:
+                # "the original exception": what the key type / datatype itself raises for this text
+                try:
+                    _SCHEMA["schema"].registry.get(ref.dt)(ref.value)
+                    own = None
+                except ValueError as own_:
+                    own = own_
+                except Exception:  # noqa
+                    own = None
+                if own is not None and (type(e.exception) is not type(own) or str(e.exception) != str(own)):
+                    out.append(("conversion-error-carries-another-exception:%s" % ref.rule,
+                                "%r, but the %s %r raises %r" % (e.exception, "key type" if ref.rule == "key-conversion" else "datatype", ref.dt, own)))
     return ref, got, out
 
 
